@@ -255,19 +255,20 @@ def evaluate_cli(toks: str) -> R:
         seen = observe(ref_filter(text + "\n")[0])
         if seen[0] == "ok":
             declares = any(seen[1:])
-            root = fresh_dir("c12")
-            (root / "f.py").write_text(text + "\n")
-            before = (root / "f.py").read_bytes()
-            out = run_cli(["--root", str(root), "annotate", "--skip-existing", "--copyright", "Zed Z", "--license", "Zlib", "--year", "2020", str(root / "f.py")])
-            r.evals += 1
-            changed = (root / "f.py").read_bytes() != before
-            if out.exc or out.exit_code != 0:
-                r.violation("skip-existing-failed", f"annotate --skip-existing on {text!r}: {out.brief()}")
-            elif declares and changed:
-                r.violation("skip-existing-annotated-a-declaring-file", f"file {text!r} declares {seen[1:]} outside ignore blocks, but --skip-existing changed it")
-            elif not declares and not changed:
-                r.violation("skip-existing-skipped-a-silent-file", f"file {text!r} declares nothing outside ignore blocks, but --skip-existing skipped it: {out.stdout[-160:]!r}")
-            r.validated += 1
+            for ending in ("\n", "\r\n", "\r"):
+                root = fresh_dir("c12")
+                (root / "f.py").write_bytes((text + "\n").replace("\n", ending).encode())
+                before = (root / "f.py").read_bytes()
+                out = run_cli(["--root", str(root), "annotate", "--skip-existing", "--copyright", "Zed Z", "--license", "Zlib", "--year", "2020", str(root / "f.py")])
+                r.evals += 1
+                changed = (root / "f.py").read_bytes() != before
+                if out.exc or out.exit_code != 0:
+                    r.violation("skip-existing-failed", f"annotate --skip-existing on {text!r} ({ending!r} endings): {out.brief()}")
+                elif declares and changed:
+                    r.violation(f"skip-existing-annotated-a-declaring-file|{ending!r}", f"file {text!r} ({ending!r} endings) declares {seen[1:]} outside ignore blocks, but --skip-existing changed it")
+                elif not declares and not changed:
+                    r.violation(f"skip-existing-skipped-a-silent-file|{ending!r}", f"file {text!r} ({ending!r} endings) declares nothing outside ignore blocks, but --skip-existing skipped it: {out.stdout[-160:]!r}")
+                r.validated += 1
     r.outcome = "cli"
     r.tags.append("cli")
     r.nontrivial = "S" in toks and any(t in toks for t in "LC")
